@@ -451,7 +451,7 @@ func exec(w *world, op string) string {
 		return "ok"
 	case "chain":
 		rs, texts := w.rulesOf(ws[1], ws[3], false)
-		if got := w.drules(ws[1], ws[3], false); got != ws[4] {
+		if got := w.drules(ws[1], ws[3], false); ws[4] != "?" && got != ws[4] {
 			panic("op line out of date with the renderer: " + got + " vs " + ws[4])
 		}
 		w.table.UpdateChain(&generictables.Chain{Name: ws[1], Rules: rs, ForceProgramming: ws[2] == "1"})
